@@ -46,6 +46,9 @@ def run(prog, world, sem, rep):
              "the strict test (Env.block.time - State.last_unbonded_time) > Parameters.epoch_period", 1)
     rep.rule("C08.b", "a history entry is stored with released = true only when it exists, its time <= now - Parameters.unbonding_period, and it "
              "was read as not released (all in-loop effects of the releasing loop are behind these three observations)", 3)
+    rep.rule("C08.g", "a handler that can save the rolled-over batch id saves the rolled-over batch: wherever the value written to CURRENT_BATCH can carry "
+             "the roll-over's id + 1, each of requested_bsei_with_fee / requested_stsei written with it can be the roll-over's reset value (a writer "
+             "that copies back only some fields leaves the closed batch's requests pending)", 1)
     rep.rule("C08.c", "CurrentBatch.id only ever changes by the roll-over's +1 (every writer of CURRENT_BATCH outside instantiate preserves it or "
              "stores the rolled-over value); the roll-over sets State.last_unbonded_time := Env.block.time and records the same time in the history entry it creates", 3)
     rep.rule("C08.d", "the history map has exactly two kinds of reachable writers: the roll-over (new key = CurrentBatch.id, released = false) and the "
@@ -128,6 +131,23 @@ def run(prog, world, sem, rep):
             rep.ob("C08.c", "hub::%s CURRENT_BATCH.id in %s" % (vn, v.body.path), not bad,
                    "batch id written with %s" % bad if bad else "id preserved or rolled over by +1", where(v.body, bb),
                    key="C08.c | hub::%s | %s" % (vn, v.body.path), fkey="hub::%s CURRENT_BATCH.id" % vn)
+            # C08.g: a writer that can store the rolled-over id stores the rolled-over batch: both request totals can be the reset value
+            rolled = [a for a in alts if a is not None and a.op == "bin" and a.info == "Add" and a.site and a.site[0] in ro_paths]
+            if rolled and v.body.path not in ro_paths:
+                stale = []
+                for req in ("requested_bsei_with_fee", "requested_stsei"):
+                    rv_ = world.ident(sem.field_of(wv, req))
+                    ra = rv_.args if rv_.op == "phi" else (rv_,)
+
+                    def is_reset(x):
+                        x = world.ident(x)
+                        return (x.op == "call" and x.info.endswith("::zero")) or (x.op == "const" and x.info[0] == "scalar" and x.info[1] == 0)
+                    if not any(is_reset(x) for x in ra):
+                        stale.append("%s := %s" % (req, show(rv_, 3)))
+                rep.ob("C08.g", "hub::%s saves the rolled-over batch whole (%s)" % (vn, v.body.path), not stale,
+                       "the batch id can be saved rolled over while %s keeps the closed batch's requests: they are valued and undelegated again with the next batch "
+                       "and stay in the rate's denominator" % "; ".join(stale) if stale else "id and both request totals come from the rolled-over batch",
+                       where(v.body, bb), key="C08.g | hub::%s | %s" % (vn, v.body.path), fkey="hub::%s" % vn)
 
     # ---------------------------------------------------------------- C08.e (roll-over body, function-local terms)
     entries = ro[ro_path]
